@@ -20,6 +20,8 @@ func checkC13(e *Env) {
 	e.R.Explanation = "Decided (structural necessary conditions of C13): (a) the three tables of addinfo.go, evaluated for all 32 additional-information values and all 7 classes, equal RFC 8949's and agree with the encoder's thresholds (lower limit of a head size = first value the encoder gives that size) and the decoder's follow-byte counts, so everything the encoder emits in the subset has an accepted head and no non-shortest head is accepted; (b) the uint64->int conversions of declared string lengths and item counts are dominated by comparisons with len(input) (E6 U1/U2); (c) progress: every length returned on a successful path is >= 1 (sign analysis to a greatest fixpoint over the mutual recursion), the top-level cursor advances by such a length, every call cycle passes through a call on a strict suffix input[k:], k >= 1, and the element loops count a loop-invariant bound by +1 => Deterministic terminates on every input; (d) the element loops run once per declared item with every iteration gated by start < len(input) (else the pinned panic) and by the recursive check's error, without early successful exit; (e) on key positions only bytes.Compare(previous key, key) < 0 continues, == 0 and > 0 are errors. " +
 		"Not decided: exact agreement with RFC 8949 section 4.2 on all byte strings; panics on truncated heads (input[1:] too short) count as 'not accepted' (the suite pins that reading) and are not reported."
 	e.R.RuleText = "E7 exhaustive table evaluation; E6 U1/U2 restricted to deterministic.go; U6 sign analysis {any, >=0, >=1} with return summaries (greatest fixpoint); recursion-shrink rule on the call-graph SCC; E2 for-all loop gates, parity-specialised"
+	// COPYLEN: no tolerant copy of input bytes (shared rule, copylen.go)
+	copiesAreExact(e, 0, "internal/cbor.")
 	lowest := encoderHeadTableQuiet(e)
 	dec := decoderHeadTableQuiet(e)
 	class, length, limit := addInfoTables(e)
